@@ -8,7 +8,7 @@ from __future__ import annotations
 import ast
 
 from . import astutil as A
-from .alg import Interp, Obj, Poly, PyFunc, Undecided, to_poly
+from .alg import Interp, NotHandled, Obj, Poly, PyFunc, Undecided, to_poly
 
 
 class Instance(Obj):
@@ -21,7 +21,8 @@ class Instance(Obj):
 class World:
     def __init__(self, base_ext=None, region=None, module_env=None):
         self.base = dict(base_ext or {})
-        self.region = region or {}
+        self.base.setdefault("__strict__", True)
+        self.region = region if region is not None else {}
         self.module_env = dict(module_env or {})
         self.classes = {}
         self.funcs = {}
@@ -91,7 +92,7 @@ class World:
                     return self.call_method(recv, m, a, k)
                 if base_m is not None:
                     return base_m(recv, a, k)
-                raise Undecided(f"method .{m} on a non-instance")
+                raise NotHandled()
 
             ext["." + m] = disp
         self.ext = ext
